@@ -34,6 +34,7 @@ pub fn new_box(area: &str) -> Option<Box<dyn VerifBox>> {
         "c10" => Some(Box::new(
             crate::transport::manager::handle::verif_c10::AddrBox::new(),
         )),
+        "c03" => Some(Box::new(crate::multistream_select::verif_c03::MssBox::new())),
         _ => None,
     }
 }
@@ -48,6 +49,7 @@ pub fn areas() -> Vec<&'static str> {
         "c18",
         "c19",
     ]
+    vec!["c17", "c03"]
 }
 
 /// Decode a hex string.
